@@ -12,7 +12,7 @@ Statement, clause by clause:
  * "values larger than the configured maximum are rejected rather than truncated"
                                             → `too_large_rejected`, `within_limit_accepted`
  * "a value whose offloaded bytes are missing reads as absent rather than as a different value"
-                                            → `missing_is_absent`, `missing_file_cache_is_absent`,
+                                            → `missing_is_absent`, `outage_is_absent`, `missing_file_cache_is_absent`,
                                               `never_a_different_value`, `get_never_fails_with_store`
  * quantifier "… or recorded twice"         → `record_twice`, `record_again_same_answer`, `rerecord_heals`
  Invariant: `inv_init`, `inv_record`, `inv_env`, `reachable_inv`.  Remark: `zero_length_remark`.
@@ -196,6 +196,17 @@ theorem missing_is_absent (s : St) (hI : Inv fn s) (k : Key) (h : lookup k s.db 
   cases hs : s.store with
   | none => simp [hs] at this
   | some st => simp [ValueStore.get, dropStore, h, hs]
+
+/-- A read during a store outage (directory moved away) of an offloaded value is *absent* — and, `getAway` being a
+function of the state that does not change it, every later read (`get`, by any backend sharing the database and the
+store: the model has no per-process state) answers from the restored store again: `roundtrip_reachable` applies
+unchanged.  A per-process memo of "missing" objects is therefore not a behaviour of the model. -/
+theorem outage_is_absent (s : St) (hI : Inv fn s) (k : Key) (h : lookup k s.db = some []) :
+    getAway k s = .ok none := by
+  have := hI.placeholder k h
+  cases hs : s.store with
+  | none => simp [hs] at this
+  | some st => simp [getAway, ValueStore.get, h, hs, lookup]
 
 /-- **Missing FileCache file ⇒ absent** (never an error, never another value). -/
 theorem missing_file_cache_is_absent (s : St) (hI : Inv fn s) (k : Key) (hk : k.1 = true) (r : Option Val)
